@@ -33,6 +33,8 @@ func runC07(p *P, r *R) {
 		consNames = append(consNames, p.fname(f))
 	}
 	mPut := p.mCall(prodNames...)
+	mFam := p.mPutFamily()
+	_, wrappers := p.putFamily()
 	mPop := p.mCall(consNames...)
 	isOwnID := func(v ssa.Value) bool { return isLoadOf(v, "Stream.id") }
 
@@ -169,7 +171,7 @@ func runC07(p *P, r *R) {
 		return false, nil
 	}
 	if fl := p.fn("(*Stream).Flush"); fl != nil {
-		for _, ci := range findInstrs(fl, mPut) {
+		for _, ci := range findInstrs(fl, mFam) {
 			ok, ld := notFallbackAt(ci)
 			r.ob("R07.3", "(*Stream).Flush: the queue is used only when the stream is not in fallback state", p.ipos(ci), ok, true, "")
 			if ld != nil {
@@ -191,37 +193,57 @@ func runC07(p *P, r *R) {
 			}
 		}
 		r.ob("R07.3", "(*Stream).Flush: a buffer that spilled out of shared memory sets the fallback mark", p.pos(fl.Pos()), okUpd, true, "")
-		// status operand = the state that was checked == opened
-		for _, si := range findInstrs(fl, mStoreWord("queueElement.status")) {
-			v := si.(*ssa.Store).Val
-			c, isC := v.(*ssa.Call)
-			okS := isC && p.calleeName(&c.Call) == "(*Stream).getStreamState"
-			if okS {
-				okS = false
-				isV := func(x ssa.Value) bool { return x == v }
-				isOpen := func(x ssa.Value) bool { k, okk := constInt(x); return okk && k == stOpened }
-				for _, fct := range factsAt(si.Block()) {
-					if relOn(fct.Cond, fct.Truth, isV, isOpen) == "==" {
-						okS = true
+		// status operand = the state that was checked == opened (looked up through an enqueue helper's parameter)
+		for _, g := range append([]*ssa.Function{fl}, wrappers...) {
+			for _, si := range findInstrs(g, mStoreWord("queueElement.status")) {
+				okAll := true
+				for _, v := range p.argsFor(si.(*ssa.Store).Val, g) {
+					c, isC := v.(*ssa.Call)
+					okS := isC && p.calleeName(&c.Call) == "(*Stream).getStreamState"
+					if okS {
+						okS = false
+						isV := func(x ssa.Value) bool { return x == v }
+						isOpen := func(x ssa.Value) bool { k, okk := constInt(x); return okk && k == stOpened }
+						blk := si.Block()
+						if g != fl {
+							// the check lives in the caller: use the call site's block
+							for _, ci := range findInstrs(fl, p.mCall(p.fname(g))) {
+								blk = ci.Block()
+							}
+						}
+						for _, fct := range factsAt(blk) {
+							if relOn(fct.Cond, fct.Truth, isV, isOpen) == "==" {
+								okS = true
+							}
+						}
+					}
+					if !okS {
+						okAll = false
 					}
 				}
+				r.ob("R07.5", "(*Stream).Flush: data elements carry the opened state that was checked", p.ipos(si), okAll, true, "only the close routine may announce streamClosed")
 			}
-			r.ob("R07.5", "(*Stream).Flush: data elements carry the opened state that was checked", p.ipos(si), okS, true, "only the close routine may announce streamClosed")
 		}
 	} else {
 		r.fail("R07.3", "anchor (*Stream).Flush", "", "not found")
 	}
+	var closeFam []*ssa.Function
 	if cl := p.fn("(*Stream).close"); cl != nil {
-		np := 0
-		for _, ci := range findInstrs(cl, mPut) {
-			np++
-			ok, _ := notFallbackAt(ci)
-			r.ob("R07.4", "(*Stream).close: the close notification goes through the queue only when the stream's data does (not in fallback state)", p.ipos(ci), ok, true,
-				"for a fallback stream the data sits in the socket: a close element in the queue can be consumed first and the reader is told the stream ended before it was offered the bytes")
+		closeFam = p.family(cl)
+		np, okSock := 0, false
+		for _, g := range closeFam {
+			for _, ci := range findInstrs(g, mPut) {
+				np++
+				ok, _ := notFallbackAt(ci)
+				r.ob("R07.4", "(*Stream).close: the close notification goes through the queue only when the stream's data does (not in fallback state)", p.ipos(ci), ok, true,
+					"for a fallback stream the data sits in the socket: a close element in the queue can be consumed first and the reader is told the stream ended before it was offered the bytes")
+			}
+			if len(findInstrs(g, p.mCall("(*Session).waitForSend"))) > 0 {
+				okSock = true
+			}
 		}
 		r.count("R07.4", "queue notifications in close()", np, 1)
 		// the connection path exists for fallback streams
-		okSock := len(findInstrs(cl, p.mCall("(*Session).waitForSend"))) > 0
 		r.ob("R07.4", "(*Stream).close: a connection-level close event exists for fallback streams / full queues", p.pos(cl.Pos()), okSock, true, "")
 	} else {
 		r.fail("R07.4", "anchor (*Stream).close", "", "not found")
@@ -230,7 +252,7 @@ func runC07(p *P, r *R) {
 	for _, f := range p.fnList {
 		for _, si := range findInstrs(f, mStoreWord("queueElement.status")) {
 			if c, ok := constInt(si.(*ssa.Store).Val); ok && c == stClosed {
-				r.ob("R07.5", p.fname(f)+": announces streamClosed", p.ipos(si), p.fname(f) == "(*Stream).close", true, "")
+				r.ob("R07.5", p.fname(f)+": announces streamClosed", p.ipos(si), inFns(f, closeFam), true, "")
 			}
 		}
 	}
